@@ -290,10 +290,13 @@ class Engine:
     def run(self, f, depth, stack=(), start=0, ends=None, avoid=(), init=None):
         """list of SPath over f's own parameters (or over the caller's terms when `init` binds the parameters to
         argument expressions), or None when the path budget is exceeded"""
-        roots = enum_paths(f, start=start, ends=ends, avoid=avoid)
+        roots = enum_paths(f, start=start, ends=ends, avoid=avoid, second_iteration=True)
         out = []
         seen_sig = set()
         for blocks in roots:
+            repeated = {b_ for b_ in blocks if blocks.count(b_) > 1}
+            self._visit = {}
+            self._repeated = repeated
             st0 = _State()
             if init:
                 for i_, a_ in enumerate(init):
@@ -310,6 +313,11 @@ class Engine:
                         self.wr_place(f, st, s["place"], self.rd_rvalue(f, st, s["rv"]), b, idx, s["rv"])
                 t = f.term(b)
                 k = t["k"]
+                if b in repeated:
+                    self._visit[b] = self._visit.get(b, 0) + 1
+                    self._cur_tag = (b, self._visit[b])
+                else:
+                    self._cur_tag = None
                 if k == "call":
                     new = []
                     for st in states:
@@ -472,6 +480,10 @@ class Engine:
                         outs = [(sp, list(args)) for sp in summ]
         if outs is None:
             val = f.call_expr(b, t, args, 0, False)
+            tag = getattr(self, "_cur_tag", None)
+            if tag is not None and tag[0] == b and val[0] == "call" and len(val) == 4 and tag[1] > 1:
+                # the same call site executed again in a loop: a different value each time
+                val = val[:3] + ((f.name, b, tag[1]),)
             if not (val[0] != "call" or generic in TRANSPARENT_CALLS):
                 st.events.append(Ev(f, b, t, callee if t["res"] not in ("unresolved", "virtual") else generic, generic, args, val, depth, False, st.tick()))
             return [finish(st, val)]
@@ -728,11 +740,22 @@ def _subst(e, args):
     return tuple(_subst(x, args) if isinstance(x, tuple) else x for x in e)
 
 
+def _iter_key(e):
+    """strip_site, except that a call site tagged with a loop iteration stays distinguishable"""
+    if not isinstance(e, tuple):
+        return e
+    if e and e[0] == "call":
+        site = e[3] if len(e) > 3 else None
+        base = ("call", e[1], tuple(_iter_key(a) for a in e[2]))
+        return base + ((site[2],) if isinstance(site, tuple) and len(site) == 3 else ())
+    return tuple(_iter_key(x) for x in e)
+
+
 def _consistent(atoms):
     """no two atoms about the same expression contradict each other"""
     seen_enum, seen_bool = {}, {}
     for a in atoms:
-        key = repr(strip_site(unclone(a[1])))
+        key = repr(_iter_key(unclone(a[1])))
         if a[0] == "enum":
             pos = {n for n in a[2] if not n.startswith("!")}
             neg = {n[1:] for n in a[2] if n.startswith("!")}
